@@ -178,3 +178,61 @@ pub fn carry_chains(pmax: usize, rmax: usize) -> Vec<String> {
     }
     out
 }
+
+/// The structured-operand library: positive integers whose SHAPE is what a shortcut in the code could key
+/// on, independent of any literal in the current source —
+///   * machine-word limits 2^e + d (e in {31,32,53,63,64,96,127,128,192,256}, d in -9..=9);
+///   * floor(2^e / 10^k) + {-1,0,1,2} for e in {31,32,63,64,127,128} and every k <= 40: coefficients whose
+///     product with a power of ten crosses a word limit;
+///   * the nine digit patterns (9..9, 10..0, 10..01, 49..9, 50..0, 50..01, 19..9, 9..98, filler) at EVERY
+///     length 1..=lmax: every residue of the length modulo any chunk size (8, 9, 19 digits, 32/64 bits);
+///   * carry chains prefix|9^r|last for prefix lengths 0..=3 and every run length 0..=rmax;
+///   * 2^n - 1, 2^n, 2^n + 1 around word multiples (all-ones / single-bit words) up to 2^260.
+/// Sorted, without duplicates.  Callers add signs, scales and written-out trailing zeros.
+pub fn structured_ints(lmax: usize, rmax: usize, seed: u64) -> Vec<BigInt> {
+    let mut out: Vec<BigInt> = word_limit_ints().into_iter().filter(|v| v.sign() == num_bigint::Sign::Plus).collect();
+    for e in [31usize, 32, 63, 64, 127, 128] {
+        let mut p = BigInt::from(1);
+        for _k in 0..=40 {
+            let q = (BigInt::from(1) << e) / &p;
+            for d in [-1i64, 0, 1, 2] {
+                let c = &q + d;
+                if c.sign() == num_bigint::Sign::Plus {
+                    out.push(c);
+                }
+            }
+            p *= 10;
+        }
+    }
+    for l in 1..=lmax {
+        for (_, d) in patterns(l, seed) {
+            out.push(big(&d));
+        }
+    }
+    for s in carry_chains(3, rmax) {
+        out.push(big(&s));
+    }
+    for n in [8usize, 16, 24, 31, 32, 33, 48, 63, 64, 65, 95, 96, 97, 127, 128, 129, 159, 160, 191, 192, 193, 255, 256, 257, 260] {
+        for d in [-1i64, 0, 1] {
+            out.push((BigInt::from(1) << n) + d);
+        }
+    }
+    out.sort();
+    out.dedup();
+    out
+}
+
+/// structured integers as decimals: both signs x the given scales x k written-out trailing zeros
+pub fn structured_decimals(ints: &[BigInt], scales: &[i128], pads: &[u64]) -> Vec<Dec> {
+    let mut out = vec![];
+    for n in ints {
+        for &s in scales {
+            for &k in pads {
+                let m = n * spec::pow10(k);
+                out.push(Dec { n: m.clone(), s: s + k as i128 });
+                out.push(Dec { n: -m, s: s + k as i128 });
+            }
+        }
+    }
+    out
+}
